@@ -48,10 +48,14 @@ where
     T: Deserialize<'de>,
     D: Deserializer<'de>,
 {
-    T::deserialize(Value::String(
-        String::deserialize(deserializer)?.to_lowercase(),
-    ))
-    .map_err(serde::de::Error::custom)
+    // A JSON `null` is passed on as `Value::Null` so that optional fields (e.g., `token_type` in
+    // token introspection responses) treat it like an absent member, as every other optional
+    // member does. Required fields still reject it.
+    let value = match Option::<String>::deserialize(deserializer)? {
+        Some(variant_str) => Value::String(variant_str.to_lowercase()),
+        None => Value::Null,
+    };
+    T::deserialize(value).map_err(serde::de::Error::custom)
 }
 
 /// Serde space-delimited string deserializer for a `Vec<String>`.
